@@ -24,7 +24,7 @@ SPEC = dict(
     required=["sibling_sets", "loads_compared", "show_compared", "dry_update_compared", "bool_spelling:yes",
               "bool_spelling:on", "bool_spelling:1", "bool_spelling:TRUE", "bool_spelling:no", "glob_entries",
               "legacy_section_loads", "explicit_self_entries_with_extra_pattern", "ini_layout:inline", "ini_layout:mixed",
-              "configs_without_file_patterns_section", "ini_mixed_quoting", "ini_quoted_booleans"],
+              "configs_without_file_patterns_section", "ini_mixed_quoting", "ini_quoted_booleans", "toml_string_booleans"],
     anchors=[("config", "_parse_cfg"), ("config", "_parse_toml"), ("config", "_parse_config"),
              ("config", "_parse_cfg_file_patterns"), ("config", "_iter_glob_expanded_file_patterns"),
              ("config", "_parse_raw_config")],
@@ -130,7 +130,13 @@ def serialise(a, syntax, R):
                 lines.append(f"{k} = {q(a[k])}")
         for k in ("commit", "tag", "push"):
             if k in a:
-                lines.append(f"{k} = {'true' if a[k] else 'false'}")
+                if fname == "bumpver.toml" and R.random() < 0.25:
+                    # the setup.cfg spellings, written as TOML strings (what a config moved over from setup.cfg holds)
+                    sp = R.choice(TRUE_SPELLINGS if a[k] else FALSE_SPELLINGS)
+                    lines.append(f'{k} = "{sp}"')
+                    spelled["toml_string_boolean"] = 1
+                else:
+                    lines.append(f"{k} = {'true' if a[k] else 'false'}")
         if a["entries"] or a.get("self_entry") or not a.get("omit_empty_file_patterns_section"):
             lines += ["", f"[{sect}.file_patterns]"]
         if a.get("self_entry"):
@@ -265,6 +271,8 @@ def run_case(ctx, case):
                 ctx.count("ini_mixed_quoting")
             elif k == "quoted_boolean":
                 ctx.count("ini_quoted_booleans")
+            elif k == "toml_string_boolean":
+                ctx.count("toml_string_booleans")
             else:
                 ctx.count("bool_spelling:" + sp)
     if any("*" in key for key, _f, _p in a["entries"]):
